@@ -7,7 +7,9 @@ oracle_c15 — line protocol (sequential operations on one worker group):
   `get <k> <faults>` `del <k> <faults>`
   `add|upd|uoa|utl|utr <k> <v> <faults>`                  → `<ok:v|nil|err:dup|err:inj|err:nf|err:exists|panic> cb=<callbacks>`
         faults: string over 0/1/c (1 = that callback invocation fails, c = the caller's context is cancelled during it), `-` = none
-  `peek <k>`    → `w<i>:<v>` for every worker cache holding k (`miss` if none)   (non-mutating)
+  `peek <k>`    → `cached:<v>` for every worker cache holding k (`miss` if none)   (non-mutating; P)
+  `where <k>`   → `w<i>` of the worker(s) caching k (`nowhere`)                      (T-observable)
+  `start`       → `ok` (calls `Start()` again)        `probe <keytype>` → `ok`
   `store <k>`   → `<v>` | `none`
   `stress <seed> <n> -` / `pile <k> <m> -` → `done`   (concurrent mix / same-key pile-up on the real code, judged by monitors only)
 Configuration and worker kernel: `Nv.Gen.C15`.
@@ -63,10 +65,11 @@ def run (s : State) (op : Op) (fc : List Bool × List Nat) : St × String :=
     (some r.1, if alt ≤ plain then "{" ++ alt ++ "|" ++ plain ++ "}" else "{" ++ plain ++ "|" ++ alt ++ "}")
   else (some r.1, plain)
 
-def peekAll (cs : List Cache) (k : Key) (i : Nat) : List String :=
+/-- (worker index, cached value) for every worker cache holding k -/
+def peekAll (cs : List Cache) (k : Key) (i : Nat) : List (Nat × Val) :=
   match cs with
   | [] => []
-  | c :: rest => (match cPeek c k with | some v => [s!"w{i}:{v}"] | none => []) ++ peekAll rest k (i + 1)
+  | c :: rest => (match cPeek c k with | some v => [(i, v)] | none => []) ++ peekAll rest k (i + 1)
 
 def step1 (st : St) (line : String) : St × String :=
   match words line with
@@ -100,16 +103,39 @@ def step1 (st : St) (line : String) : St × String :=
        else if op == "utr" then run s (.utr k v) f
        else (st, "bad-op")
      | _, _, _, _ => (st, "bad-op"))
-  | ["peek", k] =>
+  | ["peek", k] =>       -- P: what the group's caches hold for k (which worker holds it is not fixed by the property)
     (match st, parseKey k with
      | some s, some k =>
-       let l := peekAll s.caches k 0
+       let l := (peekAll s.caches k 0).map (fun p => s!"cached:{p.2}")
        (st, if l.isEmpty then "miss" else ",".intercalate l)
      | _, _ => (st, "bad-op"))
+  | ["where", k] =>      -- T: the index of the worker(s) whose cache holds k
+    (match st, parseKey k with
+     | some s, some k =>
+       let l := (peekAll s.caches k 0).map (fun p => s!"w{p.1}")
+       (st, if l.isEmpty then "nowhere" else ",".intercalate l)
+     | _, _ => (st, "bad-op"))
+  | ["start"] =>         -- `Start()` again: the sequential behaviour does not depend on it
+    (match st with
+     | some _ => (st, "ok")
+     | none => (st, "bad-op"))
+  | ["probe", t] =>      -- the shipped key types are usable as keys (fresh group; judged by monitors)
+    (match st with
+     | some _ => (st, if ["int", "int64", "uint64", "intcrc", "string", "bytes"].contains t then "ok" else "bad-op")
+     | none => (st, "bad-op"))
   | ["store", k] =>
     (match st, parseKey k with
      | some s, some k => (st, match sGet s.store k with | some v => toString v | none => "none")
      | _, _ => (st, "bad-op"))
   | _ => (st, "bad-op")
 
-def main : IO Unit := oracleMain step1 none
+/-- an unrecognised configuration is never simulated: every operation answers `unknown-cfg` -/
+def stepCfg (st : St) (line : String) : St × String :=
+  if Nv.Gen.C15.cfg.delOrder == .unknown || Nv.Gen.C15.cfg.delOrder == .noDelete then
+    (match words line with
+     | "new" :: _ => step1 st line
+     | [] => (st, "bad-op")
+     | _ => let r := step1 st line; (r.1, if r.2 == "bad-op" then "bad-op" else "unknown-cfg"))
+  else step1 st line
+
+def main : IO Unit := oracleMain stepCfg none
